@@ -76,13 +76,13 @@ CONFIG = dict(
                    "the switch-point discipline of CPython's eval loop is an assumption of M_Snapshot",
                    "switch points P1b and P4 of the model are not driven by the harness (no checkpoint there); the "
                    "theorems cover them, the correspondence keeps them at Stay",
-                   "_lowlevel_cpython_310.py (3.8-3.10 block-stack reader) has no model; 3.12 only",
-                   "'exact when blocked' is not a separate Coq theorem here: for a quiet target it is the instance env = Stay of "
-                   "C07_snapshot_consistent_or_rejected (Example ex_run_quiet), and it is checked end-to-end by the blocked-thread "
-                   "cases (own f_back walk + manager truth log) and the per-site program-derived stack oracle; slice arithmetic "
-                   "and context recovery themselves belong to C04 / C02",
-                   "boundary positions of exception-table ranges (f_lasti == start or == end of an entry with stacktop == -1) are "
-                   "not reachable by the generated park sites: a `<=` -> `<` mutation of the handler-depth scan is not detected here"],
+                   "_lowlevel_cpython_310.py (3.8-3.10 block-stack reader, no retry protocol) has only a descriptive model "
+                   "(M_Snapshot310, theorem C07_py310_reads_below_limit) that is NOT tied by a Coq correspondence; it is exercised "
+                   "by the blocked-thread leg on CPython 3.9/3.10 (exact frames and contexts), racing schedules run on 3.12 only",
+                   "slice arithmetic and context recovery of a blocked thread's frames belong to C04 / C02; here they are checked "
+                   "end-to-end (own f_back walk + manager truth log)",
+                   "CPython 3.12 leaves the JUMP_BACKWARD of a `while` loop outside every exception-table range: a frame preempted "
+                   "there inside a with-block is reported with no contexts (observation, running frames only; C02's subject)"],
     timeout={"quick": 900, "thorough": 5400},
     NOTES=("The model's environment is indexed by (attempt, switch point) instead of a global step counter. "
            "While building this property the A-B-A defect F13 was found in the protocol and fixed in /repo (98ca0a6); "
@@ -1142,6 +1142,66 @@ def leg_stress(tier, seed):
     return n, viol, {"stress_rc": rc, "stress_extractions": n, "stress_seconds": dur}
 
 
+OTHER_SRC = r'''
+import itertools, json, sys
+from harness import c07
+bad = []; n = 0; ctx = 0
+for d in (1, 2, 3):
+    for ws in itertools.product(range(3), repeat=d):
+        for steps in range(0, 2 * d):
+            desc = {"_kind": "life", "depth": d, "withs": list(ws), "pre": ["start"] + ["step"] * steps, "e2": [], "e3": []}
+            obs = c07.run_life(desc); n += 1; ctx += obs.get("nctx", 0)
+            m = c07.oracle_life(desc, obs)
+            if m: bad.append([desc, m])
+for desc in ({"pre": [], "e2": ["start"], "e3": []}, {"pre": ["start"], "e2": ["finish"], "e3": []},
+             {"pre": ["start"], "e2": [], "e3": ["finish"]}, {"pre": ["start", "finish"], "e2": [], "e3": []},
+             {"pre": [], "e2": [], "e3": []}):
+    desc = dict(desc, _kind="life", depth=2, withs=[1, 2])
+    obs = c07.run_life(desc); n += 1
+    m = c07.oracle_life(desc, obs)
+    if m or obs["res"] != "empty": bad.append([desc, m or "expected no frames, got %r" % (obs,)])
+print("OTHER " + json.dumps({"n": n, "ctx": ctx, "bad": bad[:5], "version": sys.version.split()[0]}))
+'''
+
+
+def leg_other_pythons(tier):
+    """Blocked threads (exact frames + exact contexts against the truth log) and the not-started / finished /
+    window cases on the other interpreters: 3.10 (quick), 3.9 + 3.10 + 3.11 (thorough).  3.9/3.10 use the
+    block-stack reader _lowlevel_cpython_310.py, which has only a descriptive Coq model."""
+    path = os.path.join(ROOT, "build", "cases", "C07", "other.py")
+    os.makedirs(os.path.dirname(path), exist_ok=True)
+    with open(path, "w") as fh:
+        fh.write(OTHER_SRC)
+    vers = ["3.10.13"] if tier == "quick" else ["3.9.18", "3.10.13", "3.11.7"]
+    n, viol, info = 0, [], {}
+    for v in vers:
+        py = "/root/.pyenv/versions/%s/bin/python" % v
+        if not os.path.exists(py):
+            info["python_" + v] = "absent, skipped"
+            continue
+        env = dict(os.environ, STACKSCOPE_VERIF="1",
+                   PYTHONPATH=os.pathsep.join([os.path.join(ROOT, "harness", "shims"), REPO, ROOT]))
+        try:
+            p = subprocess.run(["timeout", "300", py, path], stdout=subprocess.PIPE, stderr=subprocess.STDOUT, text=True,
+                               timeout=330, env=env, cwd=ROOT)
+            rc, out = p.returncode, p.stdout
+        except subprocess.TimeoutExpired:
+            rc, out = 124, "timeout"
+        res = None
+        for line in out.splitlines():
+            if line.startswith("OTHER "):
+                res = json.loads(line[6:])
+        if rc != 0 or res is None:
+            viol.append({"what": "blocked-thread leg on CPython %s did not finish: rc=%s" % (v, rc), "input": {"python": v},
+                         "observed": out[-1500:]})
+            continue
+        n += res["n"]
+        info["python_" + v] = "%d cases, %d contexts, %d bad" % (res["n"], res["ctx"], len(res["bad"]))
+        for desc, msg in res["bad"]:
+            viol.append({"what": "CPython %s: %s" % (v, msg), "input": dict(desc, python=v)})
+    return n, viol, info
+
+
 def extra_legs(tier, seed):
     info, viol = {}, []
     n1, v1 = leg_extract_racing()
@@ -1150,4 +1210,7 @@ def extra_legs(tier, seed):
     n2, v2, i2 = leg_stress(tier, seed)
     viol += v2
     info.update(i2)
-    return dict(evaluations=n1 + n2, violations=viol, info=info)
+    n3, v3, i3 = leg_other_pythons(tier)
+    viol += v3
+    info.update(i3)
+    return dict(evaluations=n1 + n2 + n3, violations=viol, info=info)
